@@ -166,3 +166,207 @@ Proof. revert st c. induction vs as [|v r IH]; intros st c Hin L X Hf; [destruct
 
 Lemma in_peers_visits phi order peers n p : In n order -> In p peers -> In ((n, p), phi (n, p)) (peers_visits phi order peers).
 Proof. intros Hn Hp. unfold peers_visits. apply in_flat_map. exists n. split; auto. apply in_map_iff. exists p. auto. Qed.
+
+(* ---------- (1) completeness: the model's own answers produce no code ---------- *)
+(* what ties the model's store to the history the monitor has seen (newest first) *)
+Record rel (st : store) (past : list op) : Prop := mk_rel {
+  r_inv : inv st;
+  r_latest : forall k m, latest k st = Some m -> last_add k past = Some m;
+  r_once : forall k, (alerts_since_add k past + budget k st <= 1)%nat;
+  r_present : forall k m, last_add k past = Some m -> removed_since_add k past = false ->
+                alerts_since_add k past = 0%nat -> latest k st = Some m;
+  r_len : forall k, (length (window k st) <= count_adds k past)%nat;
+  r_names : forall n, In n (names st) <-> In n (names_added past)
+}.
+
+Lemma rel_empty : rel empty_store [].
+Proof. constructor; try (intros; discriminate).
+  - apply inv_empty.
+  - intros k. unfold budget, latest, window. simpl. lia.
+  - intros k. unfold window. simpl. lia.
+  - intros n. simpl. tauto. Qed.
+
+Lemma rel_add m st past : rel st past -> rel (s_add m st) (OAdd m :: past).
+Proof. intros R. constructor.
+  - apply inv_add, R.
+  - intros k m0 L. cbn [last_add]. destruct (key_eqb_spec (mkey m) k) as [E|E].
+    + subst k. now rewrite latest_add_same in L.
+    + rewrite latest_add_other in L by congruence. now apply (r_latest _ _ R).
+  - intros k. cbn [alerts_since_add]. destruct (key_eqb_spec (mkey m) k) as [E|E].
+    + pose proof (budget_le_1 k (s_add m st)). lia.
+    + unfold budget. rewrite latest_add_other by congruence. apply (r_once _ _ R).
+  - intros k m0. cbn [last_add removed_since_add alerts_since_add]. destruct (key_eqb_spec (mkey m) k) as [E|E].
+    + intros H _ _. injection H as <-. subst k. apply latest_add_same.
+    + rewrite latest_add_other by congruence. apply (r_present _ _ R).
+  - intros k. cbn [count_adds]. destruct (key_eqb_spec (mkey m) k) as [E|E].
+    + subst k. rewrite window_add_same. pose proof (r_len _ _ R (mkey m)).
+      rewrite firstn_length. cbn [length]. lia.
+    + rewrite window_add_other by congruence. pose proof (r_len _ _ R k). lia.
+  - intros n. unfold s_add. cbn [names names_added]. pose proof (r_names _ _ R n) as Hn.
+    destruct (memN (mname m) (names st)) eqn:M.
+    + apply memN_in in M. split; [intros H; right; tauto|]. intros [<-|H]; tauto.
+    + rewrite in_app_iff. simpl. tauto. Qed.
+
+Lemma rel_remove p st past : rel st past -> rel (s_remove_peer p st) (ORemovePeer p :: past).
+Proof. intros R. constructor.
+  - apply inv_remove_peer, R.
+  - intros k m L. rewrite latest_remove_peer in L. destruct (N.eqb (snd k) p); [discriminate|].
+    cbn [last_add]. now apply (r_latest _ _ R).
+  - intros k. cbn [alerts_since_add]. pose proof (r_once _ _ R k). unfold budget in *. rewrite latest_remove_peer.
+    destruct (N.eqb (snd k) p); [destruct (latest k st); lia | exact H].
+  - intros k m. cbn [last_add removed_since_add alerts_since_add]. intros H1 H2 H3.
+    apply orb_false_iff in H2. destruct H2 as [H2 H2']. rewrite latest_remove_peer, N.eqb_sym, H2.
+    now apply (r_present _ _ R).
+  - intros k. cbn [count_adds]. rewrite window_remove_peer. pose proof (r_len _ _ R k).
+    destruct (N.eqb (snd k) p); simpl; lia.
+  - intros n. cbn [names_added]. apply (r_names _ _ R). Qed.
+
+Lemma rel_check now vs st c past o : rel st past -> obs_of_check o = Some (snd (visits now vs (st, c))) ->
+  rel (fst (fst (visits now vs (st, c)))) (o :: past).
+Proof. intros R Ho.
+  assert (Hasa : forall k, alerts_since_add k (o :: past) = (alerts_for k (snd (visits now vs (st, c))) + alerts_since_add k past)%nat).
+  { intros k. destruct o; try discriminate; cbn [obs_of_check] in Ho; injection Ho as ->; reflexivity. }
+  assert (Hla : forall k, last_add k (o :: past) = last_add k past) by (intros k; destruct o; try discriminate; reflexivity).
+  assert (Hrm : forall k, removed_since_add k (o :: past) = removed_since_add k past) by (intros k; destruct o; try discriminate; reflexivity).
+  assert (Hca : forall k, count_adds k (o :: past) = count_adds k past) by (intros k; destruct o; try discriminate; reflexivity).
+  assert (Hna : names_added (o :: past) = names_added past) by (destruct o; try discriminate; reflexivity).
+  constructor.
+  - apply visits_inv, R.
+  - intros k m L. rewrite Hla. destruct (visits_latest now vs st c k) as [E|E]; rewrite E in L; [|discriminate].
+    now apply (r_latest _ _ R).
+  - intros k. rewrite Hasa. pose proof (visits_budget now vs st c k). pose proof (r_once _ _ R k). lia.
+  - intros k m. rewrite Hla, Hrm, Hasa. intros H1 H2 H3.
+    assert (L : latest k st = Some m) by (apply (r_present _ _ R); auto; lia).
+    destruct (visits_window now vs st c k) as [E|[_ F]]; [|lia]. unfold latest in *. now rewrite E.
+  - intros k. rewrite Hca. pose proof (r_len _ _ R k). destruct (visits_window now vs st c k) as [E|[E _]]; rewrite E; simpl; lia.
+  - intros n. rewrite Hna, visits_names. apply (r_names _ _ R). Qed.
+
+Lemma rel_skip o st past : rel st past ->
+  match o with OTick _ | OPeerset _ | OSetPhi _ _ | OLatest _ _ => True | _ => False end -> rel st (o :: past).
+Proof. intros R Ho. destruct o; try contradiction; (constructor; [apply R | apply (r_latest _ _ R) | apply (r_once _ _ R) |
+  apply (r_present _ _ R) | apply (r_len _ _ R) | apply (r_names _ _ R)]). Qed.
+
+Lemma flat_map_some_peers (L : list metric) :
+  flat_map (fun om : option metric => match om with Some m => [mpeer m] | None => [] end) (map Some L) = map mpeer L.
+Proof. induction L as [|m r IH]; [reflexivity|]. simpl. now rewrite IH. Qed.
+
+Lemma latest_metrics_nodup now name ps st : inv st -> NoDup (map mpeer (latest_metrics now name ps st)).
+Proof. intros [A [B _]]. destruct ps as [| |l]; simpl.
+  - now apply latest_valid_nodup.
+  - constructor.
+  - unfold peerset_filter. apply NoDup_map_filter. now apply latest_valid_nodup. Qed.
+
+(* code 2 *)
+Lemma latest_code_complete st past now ps name : rel st past -> uniq_ids past ->
+  latest_okb now ps past name (map mid (latest_metrics now name ps st)) = true.
+Proof. intros R Hu. destruct (r_inv _ _ R) as [A [B C]]. unfold latest_okb. rewrite map_map.
+  set (L := latest_metrics now name ps st).
+  assert (HL : forall m, In m L -> last_add (mkey m) past = Some m /\ mname m = name /\ discard now m = false /\
+                                   match ps with PSome l => memN (mpeer m) l = true | PNone => True | PErr => False end).
+  { intros m Hm. assert (Hv : In m (latest_valid now name st)) by (eapply latest_metrics_incl; eauto).
+    apply in_latest_valid in Hv; auto. destruct Hv as [Hn [Hl Hd]]. split; [now apply (r_latest _ _ R)|].
+    split; auto. split; auto. unfold L in Hm. destruct ps as [| |l]; simpl in Hm; auto.
+    unfold peerset_filter in Hm. apply filter_In in Hm. tauto. }
+  assert (E : map (fun id => find_add (mid id) past) L = map Some L).
+  { apply map_ext_in. intros m Hm. apply find_add_uniq; auto. eapply last_add_in. apply (HL m Hm). }
+  rewrite E. apply andb_true_iff. split.
+  - apply forallb_forall. intros om Hin. apply in_map_iff in Hin. destruct Hin as [m [<- Hm]].
+    destruct (HL m Hm) as [H1 [H2 [H3 H4]]]. unfold discard in H3. apply orb_false_iff in H3. destruct H3 as [H3 H5].
+    apply negb_false_iff in H3. rewrite H1, H2, H3, H5, !N.eqb_refl. cbn [negb andb].
+    destruct ps; auto.
+  - rewrite flat_map_some_peers. apply nodupb_NoDup. apply latest_metrics_nodup. split; auto. Qed.
+
+(* code 10 *)
+Lemma fresh_code_complete st c past now vs : rel st past -> alerts_fresh_okb now past (snd (visits now vs (st, c))) = true.
+Proof. intros R. unfold alerts_fresh_okb. apply forallb_forall. intros a Ha.
+  destruct (visits_alerts_expired now vs st c a Ha) as [m [L [X _]]]. now rewrite (r_latest _ _ R _ _ L). Qed.
+
+(* code 11 *)
+Lemma once_code_complete st c past now vs o : rel st past -> obs_of_check o = Some (snd (visits now vs (st, c))) ->
+  alerts_once_okb (o :: past) (snd (visits now vs (st, c))) = true.
+Proof. intros R Ho. unfold alerts_once_okb. apply forallb_forall. intros a _. apply Nat.leb_le.
+  pose proof (rel_check now vs st c past o R Ho) as R'. pose proof (r_once _ _ R' (fst a)). lia. Qed.
+
+(* code 13 *)
+Lemma reported_code_complete st c past now phil peers : rel st past ->
+  reported_okb now phil past peers (snd (check_peers now (phi_of phil) (names st) peers (st, c))) = true.
+Proof. intros R. unfold reported_okb. apply forallb_forall. intros n Hn. apply forallb_forall. intros p Hp.
+  destruct (last_add (n, p) past) as [m|] eqn:LA; auto.
+  match goal with |- (if ?c then _ else _) = true => destruct c eqn:Cnd; auto end.
+  rewrite !andb_true_iff in Cnd. destruct Cnd as [[[C1 C2] C3] C4]. apply negb_true_iff in C2. apply Nat.eqb_eq in C3.
+  apply Nat.leb_le. unfold check_peers. apply (visits_reports now _ st c (n, p) (phi_of phil (n, p)) m); auto.
+  - apply in_peers_visits; auto. now apply (r_names _ _ R).
+  - now apply (r_present _ _ R).
+  - apply orb_true_iff in C4. destruct C4 as [C4|C4]; [left|now right].
+    apply Nat.ltb_lt in C4. pose proof (r_len _ _ R (n, p)). unfold accrual_num. lia. Qed.
+
+Lemma mstep_checkpeers peers obs s :
+  fst (mstep (OCheckPeers peers obs) s) =
+  let X := check_peers (ms_now s) (phi_of (ms_phi s)) (names (ms_st s)) peers (ms_st s, ms_c s) in
+  mk_ms (ms_now s) (fst (fst X)) (snd (fst X)) (ms_phi s) (ms_ps s).
+Proof. unfold mstep. destruct (check_peers _ _ _ _ _) as [[st c] al]. reflexivity. Qed.
+Lemma mstep_checkall obs s :
+  fst (mstep (OCheckAll obs) s) =
+  let X := check_all (ms_now s) (phi_of (ms_phi s)) (ms_st s, ms_c s) in
+  mk_ms (ms_now s) (fst (fst X)) (snd (fst X)) (ms_phi s) (ms_ps s).
+Proof. unfold mstep. destruct (check_all _ _ _) as [[st c] al]. reflexivity. Qed.
+
+Lemma adds_of_cons o r : adds_of (o :: r) = adds_of [o] ++ adds_of r.
+Proof. unfold adds_of. simpl. now rewrite app_nil_r. Qed.
+Lemma adds_of_answer o s : adds_of [answer o s] = adds_of [o].
+Proof. destruct o; reflexivity. Qed.
+
+Lemma uniq_shift (a b c : list metric) : NoDup (map mid ((a ++ b) ++ c)) -> NoDup (map mid (b ++ a ++ c)).
+Proof. apply Permutation_NoDup. apply Permutation_map. rewrite (app_assoc b a c). apply Permutation_app_tail, Permutation_app_comm. Qed.
+Lemma uniq_tail (a b : list metric) : NoDup (map mid (a ++ b)) -> NoDup (map mid b).
+Proof. rewrite map_app. induction (map mid a) as [|x xs IH]; simpl; auto. intros H. inversion H; auto. Qed.
+
+Theorem model_passes_monitor_gen ops : forall s past, rel (ms_st s) past -> NoDup (map mid (adds_of ops ++ adds_of past)) ->
+  spec_walk (annotate ops s) past (ms_now s) (ms_ps s) (ms_phi s) = [].
+Proof. induction ops as [|o r IH]; intros s past R Hu; [reflexivity|].
+  cbn [annotate]. rewrite spec_walk_cons.
+  assert (Hup : uniq_ids past) by (eapply uniq_tail; eauto).
+  assert (Hu' : NoDup (map mid (adds_of r ++ adds_of (answer o s :: past)))).
+  { rewrite (adds_of_cons (answer o s)), adds_of_answer. apply uniq_shift. now rewrite <- adds_of_cons. }
+  destruct s as [now st c phi ps]. cbn [ms_now ms_st ms_c ms_phi ms_ps] in *.
+  destruct o as [m|dt|p|ps'|k b|peers obs|obs|name obs].
+  - (* OAdd *) cbn [answer codes_at app tick setps setphi]. apply (IH (mk_ms now (s_add m st) c phi ps)); auto. now apply rel_add.
+  - cbn [answer codes_at app tick setps setphi]. apply (IH (mk_ms (now + dt) st c phi ps)); auto. now apply rel_skip.
+  - cbn [answer codes_at app tick setps setphi]. apply (IH (mk_ms now (s_remove_peer p st) c phi ps)); auto. now apply rel_remove.
+  - cbn [answer codes_at app tick setps setphi]. apply (IH (mk_ms now st c phi ps')); auto. now apply rel_skip.
+  - cbn [answer codes_at app tick setps setphi]. apply (IH (mk_ms now st c (kput k b phi) ps)); auto. now apply rel_skip.
+  - (* OCheckPeers *) rewrite mstep_checkpeers. cbn [answer ms_now ms_st ms_c ms_phi ms_ps] in *. cbv zeta.
+    pose proof (reported_code_complete st c past now phi peers R) as H13.
+    unfold check_peers in *. set (vs := peers_visits (phi_of phi) (names st) peers) in *.
+    cbn [codes_at tick setps setphi].
+    rewrite (fresh_code_complete st c past now vs R), H13.
+    rewrite (once_code_complete st c past now vs (OCheckPeers peers (snd (visits now vs (st, c)))) R eq_refl). cbn [app].
+    apply (IH (mk_ms now (fst (fst (visits now vs (st, c)))) (snd (fst (visits now vs (st, c)))) phi ps)); auto.
+    cbn [ms_st]. apply rel_check; auto.
+  - (* OCheckAll *) rewrite mstep_checkall. cbn [answer ms_now ms_st ms_c ms_phi ms_ps] in *. cbv zeta.
+    unfold check_all in *. cbn [fst] in *. set (vs := all_visits (phi_of phi) st) in *.
+    cbn [codes_at tick setps setphi].
+    rewrite (fresh_code_complete st c past now vs R).
+    rewrite (once_code_complete st c past now vs (OCheckAll (snd (visits now vs (st, c)))) R eq_refl). cbn [app].
+    apply (IH (mk_ms now (fst (fst (visits now vs (st, c)))) (snd (fst (visits now vs (st, c)))) phi ps)); auto.
+    cbn [ms_st]. apply rel_check; auto.
+  - (* OLatest *) cbn [answer codes_at tick setps setphi mstep fst ms_now ms_st ms_ps].
+    rewrite latest_code_complete by auto. cbn [app].
+    apply (IH (mk_ms now st c phi ps)); auto. now apply rel_skip.
+Qed.
+
+Theorem model_passes_monitor_l ops : uniq_ids ops -> spec_walk (annotate ops ms0) [] 0 PNone [] = [].
+Proof. intros Hu. apply (model_passes_monitor_gen ops ms0 []); [apply rel_empty|].
+  cbn [adds_of flat_map]. now rewrite app_nil_r. Qed.
+
+(* and the annotated history is one the model agrees with (code 1 is not produced either) *)
+Lemma list_eqb_N_refl (l : list N) : list_eqb N.eqb l l = true.
+Proof. induction l as [|x r IH]; [reflexivity|]. simpl. now rewrite N.eqb_refl. Qed.
+Lemma mstep_answer o s : fst (mstep (answer o s) s) = fst (mstep o s) /\ snd (mstep (answer o s) s) = true.
+Proof. destruct o; cbn [answer]; try (split; reflexivity).
+  - unfold mstep. destruct (check_peers _ _ _ _ _) as [[st c] al]. cbn [fst snd]. split; auto. apply list_eqb_N_refl.
+  - unfold mstep. destruct (check_all _ _ _) as [[st c] al]. cbn [fst snd]. split; auto. apply list_eqb_N_refl.
+  - cbn [mstep fst snd]. split; auto. apply list_eqb_N_refl. Qed.
+Theorem annotate_agrees_l ops : forall s, mrun (annotate ops s) s = true.
+Proof. induction ops as [|o r IH]; intros s; [reflexivity|]. cbn [annotate mrun].
+  destruct (mstep_answer o s) as [E1 E2]. destruct (mstep (answer o s) s) as [s' ok]. cbn [fst snd] in *. subst. cbn [andb]. apply IH. Qed.
